@@ -402,7 +402,20 @@ func (r *Report) Finish(minEvals int) int {
 		cov[k] = v
 	}
 	if len(r.samples) == 0 {
-		cov["samples"] = []interface{}{}
+		// fall back to the identifiers of distinct non-trivial cases that were executed
+		var ks []string
+		for k := range r.distinct {
+			ks = append(ks, k)
+		}
+		sort.Strings(ks)
+		if len(ks) > 5 {
+			ks = ks[:5]
+		}
+		fallback := []interface{}{}
+		for _, k := range ks {
+			fallback = append(fallback, map[string]interface{}{"case": k})
+		}
+		cov["samples"] = fallback
 	}
 	evd := map[string]interface{}{
 		"property_id": r.Property,
